@@ -5,7 +5,7 @@
    every limit, every number of tasks, every accepted trace = every schedule of the submitting goroutines and the workers,
    and every pattern of returning / panicking tasks; [ids] is any duplicate-free universe containing the submitted ids. *)
 From Coq Require Import List ZArith Bool.
-From V Require Import Lib.Enc Gen.ConstsGoz Model.Limiter Run.C19 Proofs.Limiter Proofs.LimiterShape Proofs.LimiterRun.
+From V Require Import Lib.Enc Gen.ConstsGoz Model.Limiter Run.C19 Proofs.Limiter Proofs.LimiterShape Proofs.LimiterRun Proofs.LimiterSim.
 Import ListNotations.
 
 (* the code still has the statement order the event model stands for (regenerated from goz.go on every run):
@@ -94,3 +94,14 @@ Print Assumptions c19_first_cleanup_runs.
 Theorem c19_recover_model_is_spec : forall hnil fn cs, recover_out hnil fn cs = recover_spec_out hnil fn cs.
 Proof. exact recover_model_is_spec. Qed.
 Print Assumptions c19_recover_model_is_spec.
+
+(* run family 0: for every limit and every script, the model's predicted observation (sub 0) is NOFUEL (never observed in a
+   run: the implementation's output would differ) or the encoding of a trace the event model accepts step by step from
+   new_limiter n, ending with a Wait that returns while no task is active and no token is taken — so every theorem above
+   holds of every predicted trace *)
+Theorem c19_simulate_is_model_trace : forall n ops,
+  simulate n ops = [NOFUEL] \/
+  exists tr fin s, simulate n ops = put_list (enc_trace tr) ++ fin /\
+    accept_obs (new_limiter n) 0 tr = inl s /\ wg s = 0 /\ tokens s = 0 /\ ends_with_waitret tr = true.
+Proof. exact simulate_is_model_trace. Qed.
+Print Assumptions c19_simulate_is_model_trace.
